@@ -1,7 +1,7 @@
 (** Extraction of the executable model (ExtrOcamlBasic only; numbers stay
     extracted inductives). *)
 From Coq Require Import Extraction ExtrOcamlBasic.
-From Oal Require Import Text Position Tag Unify Loader Merge SpecUri Cast Cycles Resolve Lsp Peg Grammar.
+From Oal Require Import Text Position Tag Unify Loader Merge SpecUri Cast Cycles Resolve Lsp Peg Grammar Responses.
 Extraction Language OCaml.
 Separate Extraction
   Text.len8s Text.len16s Text.crlf_wf Text.split_at8 Text.utf16
@@ -15,4 +15,5 @@ Separate Extraction
   Cycles.cycles_check
   Resolve.resolve_module
   Lsp.run
-  Grammar.parse_pure Grammar.parse_memo.
+  Grammar.parse_pure Grammar.parse_memo
+  Responses.xfer_responses.
